@@ -219,7 +219,25 @@ def run(project: Project, rep, tier: str):
             else:
                 rep.refuted("PE-LIST", fi, fi.node, f"entry {k} of the result is not the entropy of diagram {k}: "
                                                     f"{sym.show(e)[:200]}", construct=f"{PE}: list entry {k}")
-    for rname, n in (("PE-FORM", 2), ("PE-INV", 6), ("PE-GUARD", 2), ("PE-INF", 4), ("PE-LIST", 2)):
+    # ---------------- PE-PURE: the entropy is a function of the bars given — preparing the bars (dropping / capping infinite
+    # ones) must act on copies, otherwise a second call on the same array measures different bars
+    from .common import own_analysis
+    oa = own_analysis(project)
+    s_ = oa.summary(PE)
+    w_ = [ev for ev in s_.events if ev.kind == "write" and ev.origin.is_arg
+          and not (ev.needs_nd and isinstance(getattr(ev.node, "target", None), __import__("ast").Name))]
+    if w_:
+        ev = w_[0]
+        owner = project.functions.get(ev.func) or fi
+        rep.refuted("PE-PURE", owner, ev.node,
+                    f"persistent_entropy edits in place what its caller passed as `{ev.origin.param}` ({ev.how} on {ev.origin}): "
+                    f"e.g. infinite deaths are overwritten with val_inf in the caller's array, so a later call (another val_inf, "
+                    f"or keep_inf=False) no longer sees the bars it was given",
+                    construct=f"{PE}({ev.origin.param}): in-place edit")
+    else:
+        rep.discharged("PE-PURE", fi, fi.node, "no write event reaches the diagrams passed in (infinite bars are dropped / "
+                                               "capped on copies)")
+    for rname, n in (("PE-PURE", 1), ("PE-FORM", 2), ("PE-INV", 6), ("PE-GUARD", 2), ("PE-INF", 4), ("PE-LIST", 2)):
         rep.floor(rname, n)
     for t in ("numpy.sum", "numpy.log", "numpy.where", "builtins.all", "numpy.array"):
         rep.trust(t)
